@@ -313,6 +313,22 @@ def h_frame_size_after_settings(client, other):
         h2h.deliver(me, [f0])
         h2h.deliver(me, [f])
         h2h.Adapter.set_conn_out_window(me, INT31)
+        if sym_choice('then', ['data', 'header-block']) == 'header-block':
+            # a header block on the stream that lived through both changes
+            B = sym_int('B', 1, 3 * (2 ** 24), default=40000)
+            assume_z(s_le(B, 3 * M))
+            me.encoder = LenEncoder(B)
+            out = models.Out(me)
+            try:
+                me.send_headers(1, h2h.TRAILERS, end_stream=True)
+            except AssertionError:
+                check(False, 'frame-over-max-frame-size-assertion', None)
+                return
+            note('sent')
+            for fr in out.frames():
+                check(fr.body_len <= M, 'frame-over-max-frame-size:%s' % type(fr).__name__,
+                      (fr.body_len, M))
+            return
         data = sym_bytes('n', 0, 2 ** 24 + 10, default=20000)
         out = models.Out(me)
         try:
